@@ -1,5 +1,335 @@
-import Banyan.Model.Util
-open Banyan
+import Banyan.Model.C11
+import Std.Data.HashMap
+open Banyan Banyan.C11
 
-/- stub: model driver for C11 not built yet -/
-def main : IO Unit := runDriver fun _ => "bad-op"
+/-! Line-protocol driver for the C11 model. Everything after a `;` field is parameter data:
+    `Z<compressed>=<plain|!>` (zstd pair), `T<bits>=<d>:<e>|!` (floatToDecimal),
+    `D<v>:<e>=<bits>` (decimal → float). -/
+
+structure Toks where
+  z : List (List Byte × Option (List Byte)) := []
+  t : Std.HashMap Nat (Option (Int × Int)) := {}
+  d : Std.HashMap (Int × Int) Nat := {}
+
+def splitAt1 (s : String) (c : Char) : Option (String × String) :=
+  match s.splitOn (String.singleton c) with
+  | [a, b] => some (a, b)
+  | _ => none
+
+def hexNat (s : String) : Option Nat := (bytesOfHexChars s.toList).map ofBE
+
+def parseTok (tk : Toks) (s : String) : Toks :=
+  match s.toList with
+  | 'Z' :: r =>
+    match splitAt1 (String.ofList r) '=' with
+    | some (c, p) =>
+      match bytesOfHex c with
+      | some cb => { tk with z := (cb, if p == "!" then none else bytesOfHex p) :: tk.z }
+      | none => tk
+    | none => tk
+  | 'T' :: r =>
+    match splitAt1 (String.ofList r) '=' with
+    | some (b, v) =>
+      match hexNat b with
+      | some bits =>
+        if v == "!" then { tk with t := tk.t.insert bits none }
+        else
+          match splitAt1 v ':' with
+          | some (d, e) =>
+            match d.toInt?, e.toInt? with
+            | some d, some e => { tk with t := tk.t.insert bits (some (d, e)) }
+            | _, _ => tk
+          | none => tk
+      | none => tk
+    | none => tk
+  | 'D' :: r =>
+    match splitAt1 (String.ofList r) '=' with
+    | some (k, b) =>
+      match splitAt1 k ':', hexNat b with
+      | some (v, e), some bits =>
+        match v.toInt?, e.toInt? with
+        | some v, some e => { tk with d := tk.d.insert (v, e) bits }
+        | _, _ => tk
+      | _, _ => tk
+    | none => tk
+  | _ => tk
+
+/-- zstd parameter instantiated from the tokens; `dflt` is what an unknown compressed block
+    decompresses to (used twice to detect that a token was needed but absent). -/
+def mkZ (tk : Toks) (dflt : Option (List Byte)) : Zstd where
+  comp := fun p =>
+    match tk.z.find? (fun e => e.2 == some p) with
+    | some e => e.1
+    | none => [70000]
+  decomp := fun c =>
+    match tk.z.find? (fun e => e.1 == c) with
+    | some e => e.2
+    | none => dflt
+
+def mkF (tk : Toks) : FloatDec where
+  toDec := fun b =>
+    match tk.t[b.toNat]? with
+    | some (some (d, e)) => some (BitVec.ofInt 64 d, BitVec.ofInt 16 e)
+    | _ => none
+  fromDec := fun v e =>
+    match tk.d[(v.toInt, e.toInt)]? with
+    | some x => BitVec.ofNat 64 x
+    | none => 0xdeadbeefdeadbeef#64
+
+def parseItem (s : String) : Option Item :=
+  if s == "n" then some none
+  else if s == "-" then some (some [])
+  else (bytesOfHexChars s.toList).map some
+
+def showItem : Item → String
+  | none => "n"
+  | some b => hexOrDash b
+
+def showList {α : Type} (f : α → String) (l : List α) : String :=
+  if l.isEmpty then "[]" else " ".intercalate (l.map f)
+
+def showItems (l : List Item) : String := showList showItem l
+def showI64s (l : List I64) : String := showList (fun v => toString v.toInt) l
+def showNats (l : List Nat) : String := showList toString l
+def hex64 (v : BitVec 64) : String := hexOfBytes (beBytes 8 v.toNat)
+
+def parseI64s (l : List String) : Option (List I64) := l.mapM fun s => s.toInt?.map (BitVec.ofInt 64)
+def parseNats (l : List String) : Option (List Nat) := l.mapM String.toNat?
+def parseItems (l : List String) : Option (List Item) := l.mapM parseItem
+
+def parseVT (s : String) : Option VType :=
+  if s == "I" then some .int64 else if s == "F" then some .float64 else if s == "S" then some .other else none
+
+def resStr {α : Type} (r : Res α) (f : α → String) : String :=
+  match r with
+  | .ok a => "ok " ++ f a
+  | .err => "ERR"
+  | .panic => "PANIC"
+
+/-- round-trip tail: `=` when equal, else the decoded list. -/
+def rt {α : Type} [DecidableEq α] (r : Res (List α)) (orig : List α) (sh : List α → String) : String :=
+  match r with
+  | .ok xs => if xs = orig then "=" else "NE " ++ sh xs
+  | .err => "ERR"
+  | .panic => "PANIC"
+
+def vaDecodeAll : Nat → List Byte → Nat → List String
+  | 0, _, _ => []
+  | fuel + 1, buf, idx =>
+    if idx < buf.length then
+      match unmarshalVarArray buf idx with
+      | .ok (v, next) => hexOrDash v :: vaDecodeAll fuel buf next
+      | _ => ["ERR"]
+    else []
+
+def firstRefused : Dict → List Item → Nat → Option Nat
+  | _, [], _ => none
+  | d, v :: vs, i =>
+    match d.add v with
+    | some d' => firstRefused d' vs (i + 1)
+    | none => some i
+
+def run (z : Zstd) (fd : FloatDec) (f : List String) : String :=
+  match f with
+  | "vi64" :: a =>
+    match parseI64s a with
+    | some vs =>
+      let enc := varInt64ListToBytes vs
+      hexOrDash enc ++ " " ++
+        (match bytesToVarInt64List vs.length enc with
+         | .ok (xs, tail) => if xs = vs ∧ tail = [] then "=" else s!"NE {showI64s xs} tail={tail.length}"
+         | _ => "ERR")
+    | none => "bad-op"
+  | "vu64" :: a =>
+    match parseNats a with
+    | some us =>
+      let enc := varUint64sToBytes us
+      hexOrDash enc ++ " " ++
+        (match bytesToVarUint64s us.length enc with
+         | .ok (xs, tail) => if xs = us ∧ tail = [] then "=" else s!"NE {showNats xs} tail={tail.length}"
+         | _ => "ERR")
+    | none => "bad-op"
+  | ["vu1", a] =>
+    match a.toNat? with
+    | some u =>
+      let enc := varUint64ToBytes u
+      let (v, tail) := bytesToVarUint64 enc
+      s!"{hexOrDash enc} {v} {tail.length}"
+    | none => "bad-op"
+  | ["vi1", a] =>
+    match a.toInt? with
+    | some i =>
+      let enc := varInt64ToBytes (BitVec.ofInt 64 i)
+      match readVarI64 enc with
+      | .ok (d, tail) => s!"{hexOrDash enc} {d.toInt} {tail.length}"
+      | _ => hexOrDash enc ++ " ERR"
+    | none => "bad-op"
+  | ["fx64", a] =>
+    match a.toInt? with
+    | some i =>
+      let enc := C12.encInt64ToBytes (BitVec.ofInt 64 i)
+      s!"{hexOrDash enc} {(C12.encBytesToInt64 enc).toInt}"
+    | none => "bad-op"
+  | "i64l" :: a =>
+    match parseI64s a with
+    | some vs =>
+      match int64ListToBytes vs with
+      | .ok (enc, mt, first) =>
+        s!"{hexOrDash enc} {mt} {first.toInt} " ++ rt (bytesToInt64List enc mt first vs.length) vs showI64s
+      | .err => "ERR"
+      | .panic => "PANIC"
+    | none => "bad-op"
+  | "u64b" :: a =>
+    match parseNats a with
+    | some us =>
+      let enc := encodeUint64Block z us
+      hexOrDash enc ++ " " ++
+        (match decodeUint64Block z enc us.length with
+         | .ok (xs, tail) => if xs = us ∧ tail = [] then "=" else s!"NE {showNats xs} tail={tail.length}"
+         | _ => "ERR")
+    | none => "bad-op"
+  | ["cblk", a] =>
+    match parseItem a with
+    | some it =>
+      let p := itemBytes it
+      let enc := compressBlock z p
+      hexOrDash enc ++ " " ++
+        (match decompressBlock z enc with
+         | .ok (d, tail) => if d = p ∧ tail = [] then "=" else s!"NE {hexOrDash d} tail={tail.length}"
+         | _ => "ERR")
+    | none => "bad-op"
+  | ["bytes", a] =>
+    match parseItem a with
+    | some it =>
+      let enc := encodeBytes (itemBytes it)
+      match decodeBytes enc with
+      | .ok (tail, v) => s!"{hexOrDash enc} {hexOrDash v} {tail.length}"
+      | _ => hexOrDash enc ++ " ERR"
+    | none => "bad-op"
+  | "bb" :: a =>
+    match parseItems a with
+    | some its =>
+      let enc := encodeBytesBlock z its
+      hexOrDash enc ++ " " ++ rt (decodeBytesBlock z enc its.length) its showItems
+    | none => "bad-op"
+  | "rle" :: a =>
+    match parseNats a with
+    | some us => showNats (encodeRLE us)
+    | none => "bad-op"
+  | "bp" :: a =>
+    match parseNats a with
+    | some us =>
+      let enc := encodeBitPacking us
+      hexOrDash enc ++ " " ++ rt (decodeBitPacking enc) us showNats
+    | none => "bad-op"
+  | "dict" :: a =>
+    match parseItems a with
+    | some its =>
+      match Dict.addAll Dict.empty its with
+      | none => s!"REFUSED {(firstRefused Dict.empty its 0).getD 0}"
+      | some d =>
+        let enc := d.encode z
+        hexOrDash enc ++ " " ++ rt (Dict.decode z enc its.length) its showItems
+    | none => "bad-op"
+  | "va" :: a =>
+    match parseItems a with
+    | some its =>
+      let enc := its.flatMap fun it => marshalVarArray (itemBytes it)
+      hexOrDash enc ++ " " ++ " ".intercalate (vaDecodeAll (enc.length + 1) enc 0)
+    | none => "bad-op"
+  | "tag" :: t :: a =>
+    match parseVT t, parseItems a with
+    | some vt, some its =>
+      match encodeTagValues z fd its vt with
+      | .ok (enc, et) => s!"{et} {hexOrDash enc} " ++ rt (decodeTagValues z fd enc vt its.length) its showItems
+      | .err => "ERR"
+      | .panic => "PANIC"
+    | _, _ => "bad-op"
+  | "f64" :: a =>
+    match a.mapM hexNat with
+    | some bs =>
+      let src := bs.map (BitVec.ofNat 64)
+      match float64ListToDecimalIntList fd src with
+      | .ok (ds, e) => s!"{e.toInt} {showI64s ds} " ++ rt (.ok (decimalIntListToFloat64List fd ds e)) src (showList hex64)
+      | _ => "REFUSED"
+    | none => "bad-op"
+  | ["mp10", v, n] =>
+    match v.toInt?, n.toInt? with
+    | some v, some n =>
+      match mulPow10Fast (BitVec.ofInt 64 v) (BitVec.ofInt 16 n) with
+      | some r => toString r.toInt
+      | none => "REFUSED"
+    | _, _ => "bad-op"
+  -- decoders on arbitrary bytes
+  | ["dec-vi64", h, n] =>
+    match bytesOfHex h, n.toNat? with
+    | some bs, some n => resStr (bytesToVarInt64List n bs) fun (xs, tail) => s!"{showI64s xs} tail={tail.length}"
+    | _, _ => "bad-op"
+  | ["dec-vu64", h, n] =>
+    match bytesOfHex h, n.toNat? with
+    | some bs, some n => resStr (bytesToVarUint64s n bs) fun (xs, tail) => s!"{showNats xs} tail={tail.length}"
+    | _, _ => "bad-op"
+  | ["dec-vu1", h] =>
+    match bytesOfHex h with
+    | some bs => let (v, tail) := bytesToVarUint64 bs; s!"ok {v} tail={tail.length}"
+    | none => "bad-op"
+  | ["dec-bytes", h] =>
+    match bytesOfHex h with
+    | some bs => resStr (decodeBytes bs) fun (tail, v) => s!"{hexOrDash v} tail={tail.length}"
+    | none => "bad-op"
+  | ["dec-i64l", h, mt, first, n] =>
+    match bytesOfHex h, mt.toNat?, first.toInt?, n.toNat? with
+    | some bs, some mt, some first, some n => resStr (bytesToInt64List bs mt (BitVec.ofInt 64 first) n) showI64s
+    | _, _, _, _ => "bad-op"
+  | ["dec-u64b", h, n] =>
+    match bytesOfHex h, n.toNat? with
+    | some bs, some n => resStr (decodeUint64Block z bs n) fun (xs, tail) => s!"{showNats xs} tail={tail.length}"
+    | _, _ => "bad-op"
+  | ["dec-cblk", h] =>
+    match bytesOfHex h with
+    | some bs => resStr (decompressBlock z bs) fun (d, tail) => s!"{hexOrDash d} tail={tail.length}"
+    | none => "bad-op"
+  | ["dec-bb", h, n] =>
+    match bytesOfHex h, n.toNat? with
+    | some bs, some n => resStr (decodeBytesBlock z bs n) showItems
+    | _, _ => "bad-op"
+  | ["dec-bbt", h, n] =>
+    match bytesOfHex h, n.toNat? with
+    | some bs, some n => resStr (decodeBytesBlockWithTail z bs n) fun (xs, tail) => s!"{showItems xs} tail={tail.length}"
+    | _, _ => "bad-op"
+  | ["dec-bp", h] =>
+    match bytesOfHex h with
+    | some bs => resStr (decodeBitPacking bs) showNats
+    | none => "bad-op"
+  | ["dec-dict", h, n] =>
+    match bytesOfHex h, n.toNat? with
+    | some bs, some n => resStr (Dict.decode z bs n) showItems
+    | _, _ => "bad-op"
+  | ["dec-dictv", h] =>
+    match bytesOfHex h with
+    | some bs => resStr (decodeDictionaryValues z bs) showItems
+    | none => "bad-op"
+  | ["dec-va", h, i] =>
+    match bytesOfHex h, i.toNat? with
+    | some bs, some i => resStr (unmarshalVarArray bs i) fun (v, next) => s!"{hexOrDash v} next={next}"
+    | _, _ => "bad-op"
+  | ["dec-tag", t, h, n] =>
+    match parseVT t, bytesOfHex h, n.toNat? with
+    | some vt, some bs, some n => resStr (decodeTagValues z fd bs vt n) showItems
+    | _, _, _ => "bad-op"
+  | _ => "bad-op"
+
+def handle (line : String) : String :=
+  let ws := words line
+  let (f, toks) := ws.span (· ≠ ";")
+  let tk := (toks.drop 1).foldl parseTok {}
+  let fd := mkF tk
+  let r1 := run (mkZ tk none) fd f
+  let usesZ := ["u64b", "cblk", "bb", "dict", "tag", "dec-u64b", "dec-cblk", "dec-bb", "dec-bbt", "dec-dict",
+    "dec-dictv", "dec-tag"].contains (f.headD "")
+  if usesZ then
+    let r2 := run (mkZ tk (some [])) fd f
+    if r1 == r2 then r1 else "NOTOKEN"
+  else r1
+
+def main : IO Unit := runDriver handle
